@@ -35,12 +35,14 @@ AAppend(st, n0, S0, n1, S1) == n1 = n0 + 1 /\ S1 = (IF st THEN {n0 + 1} ELSE S0)
 AInsert(i, st, n0, S0, n1, S1) == i >= 1 /\ i <= n0 /\ n1 = n0 + 1 /\ S1 = (IF st THEN {i} ELSE Shift(S0, i))
 ARemove(i, n0, S0, n1, S1) == i >= 1 /\ i <= n0 /\ n1 = n0 - 1 /\ S1 = Unshift(S0, i)
 AAddWl(p, w0, P0, w1, P1) == w1 = w0 + 1 /\ P1 = (IF p \/ w0 = 0 THEN {w0 + 1} ELSE P0)
+AReset(n1, S1, w1, P1) == n1 = 0 /\ S1 = {} /\ w1 = 0 /\ P1 = {}          \* Optic.reset()
 
 Init == n = 0 /\ stops = {} /\ w = 0 /\ prim = {}
 Next == \/ \E st \in BOOLEAN : AAppend(st, n, stops, n', stops') /\ UNCHANGED <<w, prim>>
         \/ \E st \in BOOLEAN : \E i \in Int : AInsert(i, st, n, stops, n', stops') /\ UNCHANGED <<w, prim>>
         \/ \E i \in Int : ARemove(i, n, stops, n', stops') /\ UNCHANGED <<w, prim>>
         \/ \E p \in BOOLEAN : AAddWl(p, w, prim, w', prim') /\ UNCHANGED <<n, stops>>
+        \/ AReset(n', stops', w', prim')
 
 AtMostOneStop == Cardinality(stops) <= 1
 OnePrimary == w > 0 => Cardinality(prim) = 1
